@@ -90,6 +90,7 @@ def check_C03(F, tier, t0):
     guarded(R, 'A2 (connective syntax)', a2_filtered, F, R, ('If', 'Not', '<simple>', 'OpenParen'), 'A2:connective-syntax')
     guarded(R, 'S eval_recursive (connective arms)', arm_obligations, R, E, EVF, ('BinaryOp', 'Not', 'Ite', 'Const'), 'evaluator-connective-obligations')
     R.floor('functions', 10); R.floor('worlds', 12); R.floor('mk_choice-call-sites', 1); R.floor('mk_choice-sites-x-worlds', 4); R.floor('T:binary-operator-rows', 8); R.floor('evaluator-connective-obligations', 4)
+    guarded(R, 'T regex', engine_t.rule_regex, F, R)      # names are read as written (tokenizer regex)
     guarded(R, 'X5', engine_x.rule_X5, F, R)      # distinct names are distinct symbols
     return finish(R, 'proof', tier, t0,
         'Inductive proof, by exhaustive enumeration of abstract worlds (leaf/choice shape of each operand, total pre-order of the compared symbols) of each '
@@ -112,6 +113,7 @@ def check_C04(F, tier, t0):
     guarded(R, 'S eval_recursive (Quantifier arm)', arm_obligations, R, E, EVF, ('Quantifier',), 'evaluator-quantifier-obligations')
     guarded(R, 'S replace_var (Quantifier arm)', arm_obligations, R, E, RVF, ('Quantifier',), 'substitution-quantifier-obligations')
     R.floor('functions', 3); R.floor('worlds', 3); R.floor('mk_choice-call-sites', 1); R.floor('T:keyword-spellings', 4); R.floor('evaluator-quantifier-obligations', 1)
+    guarded(R, 'T regex', engine_t.rule_regex, F, R)      # names are read as written (tokenizer regex)
     guarded(R, 'X5', engine_x.rule_X5, F, R)      # distinct names are distinct symbols
     return finish(R, 'proof', tier, t0,
         'exists_impl(s,b) = b|s=1 or b|s=0 proved by structural induction in the cofactor-pair domain (every atom is the pair of its two cofactors; children of an '
@@ -297,6 +299,7 @@ def check_C05(F, tier, t0):
     guarded(R, 'T counting operators', engine_t.rule_operator_tables, F, R, ('countop',))
     guarded(R, 'T tokens', engine_t.rule_tokens, F, R, {'Eq', 'ImpliesInv', 'Geq', 'Lt', 'Gt'})
     R.floor('functions', 12); R.floor('evaluator-counting-obligations', 5); R.floor('T:counting-operator-rows', 5)
+    guarded(R, 'T regex', engine_t.rule_regex, F, R)      # names are read as written (tokenizer regex)
     guarded(R, 'X5', engine_x.rule_X5, F, R)      # distinct names are distinct symbols
     return finish(R, 'proof', tier, t0,
         'Inductive proof (list induction, linear-integer normal forms decided exactly per linear form) that cmp_count(bs,n,cmp) = cmp(n - #true(bs)), aln/amn/exn = '
@@ -336,6 +339,7 @@ def check_C06(F, tier, t0):
         R.count('A3:fixed-point-constructor-paths', 2)
     guarded(R, 'A3 (FixedPoint constructor)', a3_fixed_point)
     R.floor('functions', 2); R.floor('evaluator-fixed-point-obligations', 4); R.floor('T:fixed-point-rows', 2)
+    guarded(R, 'T regex', engine_t.rule_regex, F, R)      # names are read as written (tokenizer regex)
     guarded(R, 'X5', engine_x.rule_X5, F, R)      # distinct names are distinct symbols
     return finish(R, 'other', tier, t0,
         'Decides the code-dependent premises of Kleene iteration: (a) fp\'s loop, by one symbolic iteration from an arbitrary state: the state starts as the argument, the '
@@ -539,6 +543,8 @@ def check_C12(F, tier, t0):
     guarded(R, 'P', p)
     # the `is not a free variable` panic of to_free_index is unreachable only if the free-variable analysis is right
     guarded(R, 'S var_is_free', run_S, R, E, [FRF], spec_bdd.B, False)
+    guarded(R, 'S replace_var', run_S, R, E, [RVF])                      # ... and only if no bound name leaks into the diagram (C09):
+    guarded(R, 'S/O quantifier support', run_S, R, E, ['exists_impl', 'exists', 'all'])      # substitution is capture-free, quantified symbols are eliminated
     R.samples = R.samples[:12]
     R.floor('P:sites', 25); R.floor('P:reachable-functions', 50); R.floor('G:guards', 5)
     return finish(R, 'other', tier, t0,
@@ -566,6 +572,7 @@ def check_C13(F, tier, t0):
     guarded(R, 'E6', engine_e.rule_E6, F, R)
     guarded(R, 'E8', engine_e.rule_E8, F, R)
     guarded(R, 'X5', engine_x.rule_X5, F, R)      # in a shared environment a second formula's new variable must not take an id that is in use
+    guarded(R, 'X7', engine_x.rule_X7, F, R)      # the exported diagram shows a shared node once (de-duplicated node and edge lists)
     guarded(R, 'H', engine_e.rule_H, F, R)      # the table is keyed by the diagram: Eq / Ord / Hash of the symbol must read the same key
     def g():
         for (key, rule, msg, loc, cell) in engine_g.guard_regions(F, R):
@@ -624,6 +631,7 @@ def check_C15(F, tier, t0):
     guarded(R, 'X8', engine_x.rule_X8, F, R, 'n_queens_gen')
     front_end(R, F)       # the emitted text means what the language's tokenizer and operator tables say it means
     evaluation(R, make_engine(F))       # ... and what the evaluator and the operations it dispatches to compute for it
+    guarded(R, 'X3', engine_x.rule_X3, F, R); guarded(R, 'T filter spellings', engine_t.rule_tte, F, R)       # ... and the models are listed through the table printer (-t / -v, -f)
     R.floor('L-W:arithmetic-sites', 6); R.floor('L-W:ranges', 4); R.floor('N:loop-nests', 6); R.floor('N:proved-lines', 6); R.floor('N:families', 4)
     return finish(R, 'proof', tier, t0,
         'Affine loop-nest analysis, symbolic in n (nothing is instantiated): each of the constraint loops is read from THIR as `for i in a..b { [ for j in c..d { v_E(i,j,n), } ] OP 1 }`; '
@@ -641,6 +649,7 @@ def check_C16(F, tier, t0):
     guarded(R, 'X8', engine_x.rule_X8, F, R, 'max_clique_gen')
     front_end(R, F)       # the emitted text means what the language's tokenizer and operator tables say it means
     evaluation(R, make_engine(F))       # ... and what the evaluator and the operations it dispatches to compute for it
+    guarded(R, 'X3', engine_x.rule_X3, F, R); guarded(R, 'T filter spellings', engine_t.rule_tte, F, R)       # ... and the models are listed through the table printer (-t / -v, -f)
     R.floor('L:complement-push-sites', 1); R.floor('L:truth-table-rows', 16); R.floor('L:vertex-list-uses', 3); R.floor('L:template-skeleton-pieces', 6)
     return finish(R, 'other', tier, t0,
         'Clauses: the complement-edge guard as a truth table over {v1==v2, -u, E(v1,v2), E(v2,v1), already-emitted(v2,v1)} equals the specification (directed: constrained '
@@ -704,6 +713,7 @@ def check_C17(F, tier, t0):
     guarded(R, 'X8', engine_x.rule_X8, F, R, 'sudoku_gen')
     front_end(R, F)       # the emitted text means what the language's tokenizer and operator tables say it means
     evaluation(R, make_engine(F))       # ... and what the evaluator and the operations it dispatches to compute for it
+    guarded(R, 'X3', engine_x.rule_X3, F, R); guarded(R, 'T filter spellings', engine_t.rule_tte, F, R)       # ... and the models are listed through the table printer (-t / -v, -f)
     guarded(R, 'L-W', engine_l.rule_width, F, R, 'sudoku_gen')
     R.floor('U:list-emissions', 4); R.floor('U:proved-families', 4); R.floor('U:families-required', 4); R.floor('U:hint-rule', 1); R.floor('U:whitespace-filter', 1)
     return finish(R, 'proof', tier, t0,
